@@ -527,10 +527,14 @@ def judge(ctx, rn, case, value, m_sync, m_async, aug, with_template):
         if of is None and model.startswith("OK") and text.startswith("ERR"):
             of = f"filter raised {text[4:]} on an input inside its documented domain"
         if of is None and r is not None and model.startswith("OK"):
-            w = oracle(case, value, r)
+            try:
+                w = oracle(case, value, r)
+            except Exception as ex:  # noqa: BLE001  (a result of an unexpected shape is a rejection, not a crash)
+                w = (f"the result has a shape the contract cannot be evaluated on ({type(ex).__name__}: {str(ex)[:60]})", None)
             if w:
                 of, sig = w
-        if of is None and first_real is not None and text != first_real[0]:
+        both_fail_sum = f == "sum" and text.startswith("ERR") and first_real is not None and first_real[0].startswith("ERR")
+        if of is None and first_real is not None and text != first_real[0] and not both_fail_sum:
             of = f"{mode}/{kind} result ({text[:40]}) differs from {first_real[1]} result ({first_real[0][:40]})"
             if f == "sum" and isinstance(case["o"].get("start"), str):
                 sig = "C22:sum-str-start-sync-async-differ"
@@ -649,7 +653,7 @@ def source_equations(ctx, which):
     name = "Gen_filt_" + which
     try:
         vtext = emit(lib.SRC)
-    except filt_translate.Untranslatable as e:
+    except Exception as e:  # noqa: BLE001  (fail-closed: any translator failure is a broken obligation)
         ctx.obligations += 1
         ctx.obligation_names.append(name + " (regenerated)")
         ctx.broken.append(f"translator gen/filt_translate.py: the source of {which} left the translatable vocabulary "
@@ -798,6 +802,18 @@ def matrix(ctx, jinja2):
                         A("select", ("odd",), ())
                         A("reject", ("greaterthan", 0), ())
                         A("join", ("-",), ("d",))
+        # float items: the builtin sum of the sync filter adds floats with compensation (Python >= 3.12), so
+        # sequences whose naive left-to-right sum differs must give the same result in every environment
+        import math
+        for xs in ([0.1] * 10, [1e16, 1.0, -1e16], [0.1, 0.2, 0.3], [1e308, 1e308, -1e308], [3.0, 1e-16, -3.0, 1e-16], [0.5, True, 2]):
+            for C in (list, tuple, lambda v: (x for x in v)):
+                fv = (lambda xs=xs, C=C: C(list(xs)))
+                mx.apply("C22", "sum", fv(), (), (), fresh_value=fv, expect=lambda xs=xs: sum(xs))
+                mx.apply("C22", "sum", fv(), (None, 0.5), ("attribute", "start"), fresh_value=fv, expect=lambda xs=xs: sum(xs, 0.5))
+            objs = [{"v": x} for x in xs]
+            mx.apply("C22", "sum", objs, ("v",), ("attribute",), expect=lambda xs=xs: sum(xs))
+            for f in ("min", "max", "sort", "unique"):
+                mx.apply("C22", f, list(xs), (), ())
         # items whose attribute protocol raises: every way must fail the same way
         bad = [Obj("a", 0), Raising()]
         for f, a, n in (("sort", (False, False, "k"), ("reverse", "case_sensitive", "attribute")), ("unique", (False, "k"), ("case_sensitive", "attribute")),
@@ -853,7 +869,7 @@ def run(ctx):
         rn.ar.close()
     ctx.extra["phase_seconds"]["model_tie"] = round(time.time() - t0, 1)
     t1 = time.time()
-    matrix(ctx, jinja2)
+    fc.guarded(ctx, "C22 matrix", matrix, ctx, jinja2)
     ctx.extra["phase_seconds"]["matrix"] = round(time.time() - t1, 1)
     bg.join()
 
